@@ -298,7 +298,7 @@ class Generator:
 
         def fresh():
             return {"ret": None, "spec": [], "loops": {}, "inserts": [], "attr": [], "members": [], "drops": [], "body": None,
-                    "closures": [], "flags": [], "preloops": {}}
+                    "closures": [], "flags": [], "preloops": {}, "substs": []}
 
         opts = fresh()
         main_opts = opts
@@ -337,6 +337,12 @@ class Generator:
                 if not m:
                     raise ValueError("%s:%d: bad closure directive: %s" % (tpl_path, tpl_line, h))
                 opts["closures"].append((int(m.group(1)), m.group(2), m.group(3), m.group(4).strip(), payload))
+            elif words[0] == "subst":
+                # T8b: a field type outside Verus' subset is replaced by an opaque stand-in type (types only, never code)
+                m = re.match(r"subst\s+`(.*)`\s*=>\s*`(.*)`\s*$", h)
+                if not m:
+                    raise ValueError("%s:%d: bad subst directive: %s" % (tpl_path, tpl_line, h))
+                opts["substs"].append((m.group(1), m.group(2)))
             elif words[0] == "drop":
                 opts["drops"].append(words[2])
             elif words[0] == "body":
@@ -463,6 +469,18 @@ class Generator:
         removed = [(a, b) for a, b, _ in cfg_edits]
         edits += cfg_edits
         edits += [e for e in self._field_vis_edits(src, item) if not any(a <= e[0] < b for a, b in removed)]
+        for old, new in opts.get("substs", []):
+            text = src.text[toks[item.kw].start:toks[end - 1].end]
+            pos = text.find(old)
+            if pos < 0 or text.find(old, pos + 1) >= 0:
+                raise ShapeError("%s: type text `%s` does not occur exactly once" % (unit.name, old))
+            a0 = toks[item.kw].start + pos
+            ta = [k for k in range(item.kw, end) if toks[k].start == a0]
+            tb = [k for k in range(item.kw, end) if toks[k].end == a0 + len(old)]
+            if not ta or not tb:
+                raise ShapeError("%s: type text `%s` is not on token boundaries" % (unit.name, old))
+            edits.append((ta[0], tb[0] + 1, new))
+            self.dropped.append("%s: field type `%s` of %s replaced by the opaque stand-in `%s` (T8b)" % (src.rel, old, unit.name, new))
         self._emit_with_edits(src, item.kw, end, edits)
         w.emit("\n")
         if "derive_clone" in unit.flags:
